@@ -331,6 +331,10 @@ fn config(rewrite: bool) -> Config {
 /// the shipped system dictionary with TWO user dictionaries on top, compiled here from the shipped CSVs: user2.csv as
 /// dictionary 1 and user1.csv as dictionary 2, so that 東京府 (splits `5/U1`: a system word and a user word) and its
 /// references live in a dictionary whose references LexiconSet must re-stamp
+/// ids of lex.csv: 1 に, 3 京都, 5 東京, 6 東京都, 9 都
+const NESTED_SPLITS_CSV: &str = "東京都京都,6,6,-2000,東京都京都,名詞,固有名詞,地名,一般,*,*,トウキョウトキョウト,東京都京都,*,C,5/9/3,6/3,*,*\n\
+東京都京都に,6,6,-4000,東京都京都に,名詞,固有名詞,地名,一般,*,*,トウキョウトキョウトニ,東京都京都に,*,C,5/9/3/1,U0/1,U0/1,*\n\
+京都東京,6,6,-2000,京都東京,名詞,固有名詞,地名,一般,*,*,キョウトトウキョウ,京都東京,*,B,3/5,*,*,7\n";
 fn shipped_stack(rewrite: bool) -> Result<JapaneseDictionary, String> {
     let res = c05::resources();
     let sys = std::fs::read(format!("{}/system.dic.test", res)).map_err(|e| e.to_string())?;
@@ -340,6 +344,9 @@ fn shipped_stack(rewrite: bool) -> Result<JapaneseDictionary, String> {
         let csv = std::fs::read_to_string(format!("{}/{}", res, f)).map_err(|e| e.to_string())?;
         users.push(c05::compile_user(&loaded, &csv, 0, "")?);
     }
+    // the shipped lexicons have A splits only (東京都, 東京府): a third user dictionary with words that split differently in
+    // mode A and mode B, into system words and into its own words
+    users.push(c05::compile_user(&loaded, NESTED_SPLITS_CSV, 0, "")?);
     match catch(|| {
         let mut st = sudachi::dic::storage::SudachiDicData::new(sudachi::dic::storage::Storage::Owned(sys.clone()));
         for u in users {
@@ -436,7 +443,7 @@ fn tokenizer_level(sink: &mut Sink, rng: &mut Rng, n: usize) {
         sink.fail(c, "cannot load the shipped test dictionaries", "");
         return;
     }
-    let pieces = ["東京都", "京都", "東京", "に", "行く", "行った", "高輪ゲートウェイ駅", "特急はくたか", "いく", "いった", "123", "三千円", "アイウエオ", "abc", "ｱｲｳ", " ", "。", "ぴらる", "魔法", "東", "都", "くに", "東京府", "ａ", "東京府", "府", "すだち", "かぼす", "ぴさる"];
+    let pieces = ["東京都", "京都", "東京", "に", "行く", "行った", "高輪ゲートウェイ駅", "特急はくたか", "いく", "いった", "123", "三千円", "アイウエオ", "abc", "ｱｲｳ", " ", "。", "ぴらる", "魔法", "東", "都", "くに", "東京府", "ａ", "東京府", "府", "すだち", "かぼす", "ぴさる", "東京都京都", "東京都京都に", "京都東京"];
     for k in 0..n {
         let (rewrite, dict) = &dicts[k % 2];
         let np = 1 + rng.below(4) as usize;
@@ -666,27 +673,44 @@ fn sequence_level(sink: &mut Sink, rng: &mut Rng, n: usize) {
     if dicts.len() != 2 {
         return; // reported by tokenizer_level
     }
-    let pieces = ["東京都", "京都", "東京府", "に", "行く", "行った", "高輪ゲートウェイ駅", "特急はくたか", "いった", "123", "三千円", "アイウエオ", "ぴらる", "東京府", "すだち", "府"];
-    let subsets = [0u32, 16, 13, 1023, 64, 128, 32, 8 | 512, 4];
+    // words that split in mode A and / or B (nested, into system and user words), and words that do not
+    let splittable = ["東京都", "東京府", "東京都京都", "東京都京都に", "京都東京"];
+    let plain = ["京都", "に", "行く", "行った", "高輪ゲートウェイ駅", "特急はくたか", "いった", "123", "三千円", "アイウエオ", "ぴらる", "すだち", "府"];
+    let subsets = [0u32, 16, 13, 1023, 64, 128, 32, 8 | 512, 4, 1, 256];
     for k in 0..n {
         let (rewrite, dict) = &dicts[k % 2];
         let m0s = [rng.below(3), rng.below(3)];
-        let len = 4 + rng.below(7) as usize;
+        // a small vocabulary per sequence, so that the same words come back after the tokenizer was reconfigured: whatever
+        // an implementation keeps from earlier analyses (results, decoded entries, buffers) is then met again
+        let mut vocab: Vec<&str> = vec![*rng.pick(&splittable)];
+        if rng.chance(1, 2) {
+            vocab.push(*rng.pick(&splittable));
+        }
+        for _ in 0..1 + rng.below(2) {
+            vocab.push(*rng.pick(&plain));
+        }
+        let main_tok = rng.below(2) as usize;
+        let len = 5 + rng.below(8) as usize;
         let mut ops = vec![];
         let mut runs = 0;
+        // often start from a restricted subset: with all fields loaded nothing that is kept can be incomplete
+        if rng.chance(3, 4) {
+            let s = if rng.chance(2, 3) { *rng.pick(&subsets) } else { rng.below(1024) as u32 };
+            ops.push(Op::Subset(main_tok, s));
+        }
         for _ in 0..len {
-            let t = rng.below(2) as usize;
+            let t = if rng.chance(4, 5) { main_tok } else { 1 - main_tok };
             match rng.below(20) {
-                0..=4 => {
+                0..=2 => {
                     let s = if rng.chance(2, 3) { *rng.pick(&subsets) } else { rng.below(1024) as u32 };
                     ops.push(Op::Subset(t, s));
                 }
-                5..=7 => ops.push(Op::Mode(t, rng.below(3))),
+                3..=8 => ops.push(Op::Mode(t, rng.below(3))),
                 _ => {
                     // mostly one shared list: that is where configurations of earlier analyses can leak
                     let l = if rng.chance(3, 4) { 0 } else { 1 };
                     let np = 1 + rng.below(3) as usize;
-                    ops.push(Op::Run(t, l, (0..np).map(|_| *rng.pick(&pieces)).collect()));
+                    ops.push(Op::Run(t, l, (0..np).map(|_| *rng.pick(&vocab)).collect()));
                     runs += 1;
                 }
             }
@@ -694,6 +718,28 @@ fn sequence_level(sink: &mut Sink, rng: &mut Rng, n: usize) {
         let desc = json!({"kind": "c11-seq", "rewrite": rewrite, "m0": [m0s[0], m0s[1]], "ops": ops_json(&ops)});
         let (term, bad) = run_sequence(dict, *rewrite, m0s, &ops, false);
         sink.tag(if runs >= 3 { "sequence_with_3_or_more_analyses" } else { "sequence_with_fewer_analyses" });
+        // the shape the reconfiguration hazards need: analysis, mode change without a subset change, analysis, on one tokenizer
+        let mut last: [u8; 2] = [0, 0]; // 0 nothing yet, 1 analysed, 2 analysed then mode changed
+        let mut shape = false;
+        for o in &ops {
+            match o {
+                Op::Run(t, _, _) => {
+                    if last[*t] == 2 {
+                        shape = true;
+                    }
+                    last[*t] = 1;
+                }
+                Op::Mode(t, _) => {
+                    if last[*t] >= 1 {
+                        last[*t] = 2;
+                    }
+                }
+                Op::Subset(t, _) => last[*t] = 0,
+            }
+        }
+        if shape {
+            sink.tag("sequence_analyse_set_mode_analyse");
+        }
         let id = sink.case(term, desc, runs >= 2);
         if let Some(b) = bad {
             sink.fail(id, &b, "");
